@@ -7,28 +7,28 @@ Open Scope Z_scope.
 
 (* every existing socket keeps its address *)
 Definition same_addrs (c c' : ctl) : Prop :=
-  forall j sj, get_sock c j = Some sj -> exists sj', get_sock c' j = Some sj' /\ s_addr sj' = s_addr sj.
+  forall j sj, get_sock c j = Some sj -> exists sj', get_sock c' j = Some sj' /\ s_type sj' = s_type sj /\ s_addr sj' = s_addr sj.
 (* ... or gets one that was free before the step *)
 Definition addr_step (c c' : ctl) : Prop :=
-  forall j sj, get_sock c j = Some sj -> exists sj', get_sock c' j = Some sj' /\
+  forall j sj, get_sock c j = Some sj -> exists sj', get_sock c' j = Some sj' /\ s_type sj' = s_type sj /\
     (s_addr sj' = s_addr sj \/ (s_addr sj = None /\ exists a, s_addr sj' = Some a /\ is_free c a = true)).
 
 Lemma same_refl c : same_addrs c c.
 Proof. intros j sj G. eauto. Qed.
 Lemma same_trans c1 c2 c3 : same_addrs c1 c2 -> same_addrs c2 c3 -> same_addrs c1 c3.
-Proof. intros H1 H2 j sj G. destruct (H1 j sj G) as (s2 & G2 & A2). destruct (H2 j s2 G2) as (s3 & G3 & A3).
-  exists s3. split; auto. congruence. Qed.
+Proof. intros H1 H2 j sj G. destruct (H1 j sj G) as (s2 & G2 & T2 & A2). destruct (H2 j s2 G2) as (s3 & G3 & T3 & A3).
+  exists s3. repeat split; auto; congruence. Qed.
 Lemma same_step c c' : same_addrs c c' -> addr_step c c'.
-Proof. intros H j sj G. destruct (H j sj G) as (s' & G' & A'). eauto. Qed.
+Proof. intros H j sj G. destruct (H j sj G) as (s' & G' & T' & A'). eauto. Qed.
 Lemma step_same c1 c2 c3 : addr_step c1 c2 -> same_addrs c2 c3 -> addr_step c1 c3.
-Proof. intros H1 H2 j sj G. destruct (H1 j sj G) as (s2 & G2 & A2). destruct (H2 j s2 G2) as (s3 & G3 & A3).
-  exists s3. split; auto. rewrite A3. auto. Qed.
+Proof. intros H1 H2 j sj G. destruct (H1 j sj G) as (s2 & G2 & T2 & A2). destruct (H2 j s2 G2) as (s3 & G3 & T3 & A3).
+  exists s3. split; auto. split; [congruence|]. rewrite A3. auto. Qed.
 
 Lemma same_ext c c' : c_socks c' = c_socks c -> same_addrs c c'.
 Proof. intros E j sj G. exists sj. unfold get_sock in *. rewrite E. auto. Qed.
-Lemma same_put c i s s' : get_sock c i = Some s -> s_addr s' = s_addr s -> same_addrs c (put_sock c i s').
-Proof. intros G A j sj Gj. rewrite (get_put c i s' s j G). destruct (Nat.eqb i j) eqn:E; [|eauto].
-  apply Nat.eqb_eq in E. subst j. exists s'. split; auto. congruence. Qed.
+Lemma same_put c i s s' : get_sock c i = Some s -> s_addr s' = s_addr s -> s_type s' = s_type s -> same_addrs c (put_sock c i s').
+Proof. intros G A T j sj Gj. rewrite (get_put c i s' s j G). destruct (Nat.eqb i j) eqn:E; [|eauto].
+  apply Nat.eqb_eq in E. subst j. exists s'. repeat split; auto; congruence. Qed.
 Lemma same_sap_set c a e : same_addrs c (sap_set c a e).
 Proof. apply same_ext. apply sap_set_socks. Qed.
 Lemma same_new c x : same_addrs c (set_socks c (c_socks c ++ [x])).
@@ -69,21 +69,23 @@ Ltac q_tac :=
   end;
   try (match goal with Q : s_recvq ?s = _ :: _ |- _ => rewrite Q end; cbn; auto; fail);
   try (match goal with Q : s_sendq ?s = _ :: _ |- _ => rewrite Q end; cbn; auto; fail);
+  try (subst; right; reflexivity);
   auto.
 Ltac ev_tac :=
   constructor; cbn;
   [ first [reflexivity | congruence | auto] | first [reflexivity | congruence | auto] | first [reflexivity | congruence | auto]
-  | st_tac | st_tac | q_tac | q_tac ].
+  | st_tac | st_tac | q_tac | q_tac | q_tac ].
 
 Lemma goods_put c i s s' : wf c -> get_sock c i = Some s -> evolves s s' -> goods c (put_sock c i s').
 Proof. intros W G E. split; [eapply wf_put_evolve; eauto | eapply same_put; eauto; apply E]. Qed.
 
 Lemma goods_sd c cache tids sent sdreq sdres wait : wf c -> goods c (set_sd c cache tids sent sdreq sdres wait).
-Proof. intro W. split; [apply (wf_ext c); auto | apply same_ext; reflexivity]. Qed.
-Lemma goods_dmpdu c l : wf c -> goods c (set_dmpdu c l).
-Proof. intro W. split; [apply (wf_ext c); auto | apply same_ext; reflexivity]. Qed.
-Lemma goods_sendl c a l sl sl' : wf c -> sap_get c a = Sap l sl -> goods c (sap_set c a (Sap l sl')).
-Proof. intros W G. split; [eapply wf_sendl; eauto | apply same_sap_set]. Qed.
+Proof. intro W. split; [apply (wf_ext c); auto; apply W | apply same_ext; reflexivity]. Qed.
+Lemma goods_dmpdu c l : wf c -> (forall p, In p l -> is_ui p = false) -> goods c (set_dmpdu c l).
+Proof. intros W NU. split; [apply (wf_ext c); auto | apply same_ext; reflexivity]. Qed.
+Lemma goods_sendl c a l sl sl' : wf c -> sap_get c a = Sap l sl -> (forall p, In p sl' -> is_ui p = false) ->
+  goods c (sap_set c a (Sap l sl')).
+Proof. intros W G NU. split; [eapply wf_sendl; eauto | apply same_sap_set]. Qed.
 
 (* ---------------------------------------------------------------- bind *)
 Lemma place_get_self c i s a s0 : get_sock c i = Some s0 -> get_sock (place c i s a) i = Some (set_addr s (Some a)).
@@ -91,10 +93,10 @@ Proof. intro G. unfold place. rewrite get_sock_sap_set. eapply get_put_same; eau
 Lemma place_get_other c i s a j : i <> j -> get_sock (place c i s a) j = get_sock c j.
 Proof. intro N. unfold place. rewrite get_sock_sap_set. apply get_put_other; auto. Qed.
 
-Lemma step_place c i s0 s a : get_sock c i = Some s0 -> s_addr s0 = None -> is_free c a = true ->
+Lemma step_place c i s0 s a : get_sock c i = Some s0 -> s_addr s0 = None -> s_type s = s_type s0 -> is_free c a = true ->
   addr_step c (place c i s a).
-Proof. intros G A F j sj Gj. destruct (Nat.eq_dec i j).
-  - subst j. rewrite (place_get_self c i s a s0 G). eexists. split; eauto. right. split; [congruence|]. exists a. auto.
+Proof. intros G A T F j sj Gj. destruct (Nat.eq_dec i j).
+  - subst j. rewrite (place_get_self c i s a s0 G). eexists. split; eauto. split; [cbn; congruence|]. right. split; [congruence|]. exists a. auto.
   - rewrite place_get_other by auto. eauto. Qed.
 
 Lemma good_place c i s a : wf c -> get_sock c i = Some s -> s_addr s = None -> is_free c a = true -> 2 <= a < 64 ->
@@ -152,7 +154,7 @@ Proof. intro N. unfold place_named. change (get_sock (place c i (set_bname s on)
 Lemma step_place_named c i s a on : get_sock c i = Some s -> s_addr s = None -> is_free c a = true ->
   addr_step c (place_named c i s a on).
 Proof. intros G A F j sj Gj. destruct (Nat.eq_dec i j).
-  - subst j. rewrite (place_named_get_self c i s a on s G). eexists. split; eauto. right. split; [congruence|]. exists a. auto.
+  - subst j. rewrite (place_named_get_self c i s a on s G). eexists. split; eauto. split; [cbn; congruence|]. right. split; [congruence|]. exists a. auto.
   - rewrite place_named_get_other by auto. eauto. Qed.
 
 Lemma do_socket_good c t : wf c -> good c (fst (do_socket c t)).
@@ -301,7 +303,7 @@ Proof.
   - destruct (s_state s'); try solve [eapply autobind_only; eauto];
       (destruct d; cbn; [eapply autobind_then_put; eauto; ev_tac | eapply autobind_only; eauto]).
   - destruct (s_state s') eqn:St; try solve [eapply autobind_only; eauto].
-    cbn [s_recvq set_sendq set_state]. destruct (s_recvq s'); cbn; eapply autobind_then_put; eauto; ev_tac.
+    cbn [s_recvq set_sendq set_state]. destruct (s_recvq s'); destruct d; cbn; eapply autobind_then_put; eauto; ev_tac.
 Qed.
 
 Lemma do_sendto_good c i m d : wf c -> good c (fst (do_sendto c i m d)).
@@ -409,8 +411,8 @@ Proof.
   destruct (sd_sdres c) eqn:R, (sd_sdreq c) eqn:Q;
   try (destruct (take_sdres _ _ _) as [[rs rest] m1]; destruct (take_sdreq _ _ _ _) as [rq rest']; intro H; inversion H; subst;
        apply goods_sd; auto).
-  destruct (sd_dmpdu c); [discriminate|]. destruct (0 <? miu); [|discriminate]. intro H; inversion H; subst.
-  apply goods_dmpdu; auto.
+  destruct (sd_dmpdu c) eqn:DM; [discriminate|]. destruct (0 <? miu); [|discriminate]. intro H; inversion H; subst.
+  apply goods_dmpdu; auto. intros q Hq. apply (wf_dmpdu_ui _ W). rewrite DM. right; auto.
 Qed.
 
 Lemma collect1_good c a miu p c' : wf c -> collect1 c a miu = Some (p, c') -> goods c c'.
@@ -419,6 +421,7 @@ Proof.
   destruct (socks_dequeue c l miu) as [[p1 c1]|] eqn:D.
   - intro H; inversion H; subst. eapply socks_dequeue_good; eauto.
   - destruct sl as [|h t]; [discriminate|]. intro H; inversion H; subst. eapply goods_sendl; eauto.
+    intros q Hq. eapply (wf_sendl_ui _ W); eauto. right; auto.
 Qed.
 
 (* ---------------------------------------------------------------- dispatch *)
@@ -496,6 +499,8 @@ Proof.
   assert (AD : forall i s, In i l -> get_sock c i = Some s -> s_addr s = Some (pdu_dsap p)).
   { intros i s Li G. assert (L : listed c a i) by (unfold listed; rewrite SG; auto).
     destruct (wf_listed_addr _ W a i L) as (s0 & G0 & A0). congruence. }
+  assert (NU : forall r q, In q (sl ++ [PDM (pdu_ssap p) (pdu_dsap p) r]) -> is_ui q = false).
+  { intros r q Hq. apply in_app_or in Hq. destruct Hq as [Hq|[<-|[]]]; [eapply (wf_sendl_ui _ W); eauto | reflexivity]. }
   destruct (is_connect p).
   - destruct (pick_sock c l _) as [[i s]|] eqn:P.
     + apply pick_sock_some in P. destruct P as (Li & G & _). apply sock_enqueue_good; eauto.
@@ -529,7 +534,8 @@ Proof.
   destruct d as [|[d|d|]|]; try (apply (route_good c (PConnect _ s sn)); auto).
   match goal with |- context [if ?b then _ else _] => destruct b end.
   - apply (route_good c (PConnect _ s None)); auto.
-  - cbn. apply goods_dmpdu; auto.
+  - cbn. apply goods_dmpdu; auto. intros q Hq. apply in_app_or in Hq.
+    destruct Hq as [Hq|[<-|[]]]; [apply (wf_dmpdu_ui _ W); auto | reflexivity].
 Qed.
 
 (* ---------------------------------------------------------------- two controllers *)
